@@ -119,6 +119,16 @@ structure Dl where
   snub : Bool := false
   deriving Repr, Inhabited
 
+/-- A running metadata download (`infoDownloaders[pe]`, internal/infodownloader). -/
+structure IDl where
+  k : Nat
+  size : Nat                           -- metadata size announced by the peer
+  nb : Nat                             -- number of blocks
+  pending : Int                        -- in-flight requests (the Go counter can go below zero)
+  blocks : List (Option Bool)          -- per block: last stored data is the true bytes?
+  snub : Bool := false
+  deriving Repr, Inhabited
+
 /-- A piece write handed to the piece writer goroutine. -/
 structure WriteJob where
   piece : Nat
@@ -152,6 +162,12 @@ structure St where
   bad : List (Nat × Nat) := []         -- (piece, file) sections on disk that do NOT hold the true bytes
   peers : List Peer := []
   dls : List Dl := []
+  idls : List IDl := []
+  isize : Nat := 0                     -- true size of the info dictionary
+  maxMeta : Nat := 31457280
+  parMeta : Nat := 2
+  mayStartI : Bool := false            -- startInfoDownloaders ran in this op
+  metaDone : Bool := false             -- completeMetadataC closed
   banned : List String := []
   panicked : Option String := none
   -- gates (held by the harness)
@@ -228,7 +244,8 @@ def St.closePeer (s : St) (k : Nat) : St :=
   | none => s
   | some _ =>
     let s := s.closeDl k
-    let s := { s with peers := s.peers.filter (·.k ≠ k), mayStart := s.mayStart.filter (· ≠ k) }
+    let s := { s with peers := s.peers.filter (·.k ≠ k), mayStart := s.mayStart.filter (· ≠ k),
+                      idls := s.idls.filter (·.k ≠ k) }
     s.startDls
 
 def St.writeBitfield (s : St) : St :=
@@ -252,7 +269,7 @@ def St.stop (s : St) (err : Bool) : St :=
   let s := { s with lastErr := err, acceptor := false }
   -- stopPeers, stopPiecedownloaders
   let s := s.peers.foldl (fun s p => s.closePeer p.k) s
-  let s := { s with dls := [], mayStart := [] }
+  let s := { s with dls := [], mayStart := [], idls := [], mayStartI := false }
   let s := if s.bf.isSome then s.writeBitfield else s
   let s := s.closeData
   -- stopAllocator: the allocator finishes opening every file, its result is dropped
@@ -444,7 +461,7 @@ def start (m : M) : M :=
       if s.bf.isSome then onSt m fun s => ({ s with acceptor := true }).startDls
       else onSt m fun s => if s.verifier then s.crash "verifier exists" else { s with verifier := true }
     else onSt m fun s => if s.allocator then s.crash "allocator exists" else { s with allocator := true }
-  else onSt m fun s => { s with acceptor := true }
+  else onSt m fun s => { s with acceptor := true, mayStartI := true }
 
 /-- `handleStopped()` -/
 def handleStopped (m : M) : M :=
@@ -634,6 +651,50 @@ def handlePeerMessage (m : M) (k : Nat) (msg : Msg) : M :=
       | none => m
   | .piece i b l good => handlePieceMessage m k i b l good
 
+/-- Extension handshake (`ExtensionHandshakeMessage` branch of handlePeerMessage). -/
+def handleExtHandshake (m : M) (k : Nat) (hasMeta : Bool) (size : Nat) : M :=
+  match m.1.findPeer k with
+  | none => m
+  | some p =>
+    if p.extHS then m
+    else
+      let m := onSt m (·.updPeer k fun p => { p with extHS := true, extMeta := hasMeta, extSize := size })
+      if hasMeta && !m.1.info then onSt m fun s => { s with mayStartI := true } else m
+
+def blockSizeOf (size j : Nat) : Nat :=
+  let nb := (size + 16383) / 16384
+  if j + 1 = nb && size % 16384 ≠ 0 then size % 16384 else 16384
+
+/-- `handleMetadataMessage` — data message (torrent_metadataextension.go). `len` = length of the data,
+`good` = the data are the true bytes of block `i` of the real info dictionary. -/
+def handleMetadataData (m : M) (k i len : Nat) (good : Bool) : M :=
+  let s := m.1
+  match s.idls.find? (·.k = k) with
+  | none => m
+  | some d =>
+    -- InfoDownloader.GotBlock
+    if i ≥ d.nb then onSt (closePeerM m k) fun s => { s with mayStartI := !s.info }
+    else if len ≠ blockSizeOf d.size i then onSt (closePeerM m k) fun s => { s with mayStartI := !s.info }
+    else
+      let d' : IDl := { d with pending := d.pending - 1, blocks := d.blocks.set i (some good) }
+      let m := onSt m fun s => { s with idls := s.idls.map fun x => if x.k = k then d' else x }
+      if d'.pending ≠ 0 then
+        onSt m (·.updPeer k fun p => { p with snubbed := false })
+      else
+        -- Done(): every block requested and nothing pending → hash check over the whole buffer
+        let hashOK := d'.size = s.isize && d'.blocks.all (· = some true)
+        if !hashOK then onSt (closePeerM m k) fun s => { s with mayStartI := !s.info }
+        else
+          let m := onSt m fun s => { s with idls := [] }
+          if s.cfg.isPrivate then onSt m (·.stop true)
+          else
+            let m := onSt m fun s => { s with info := true, metaDone := true }
+            onSt m fun s => if s.allocator then s.crash "allocator exists" else { s with allocator := true }
+
+/-- metadata reject from the peer we are downloading from -/
+def handleMetadataReject (m : M) (k : Nat) : M :=
+  if (m.1.idls.any (·.k = k)) then onSt (closePeerM m k) fun s => { s with mayStartI := !s.info } else m
+
 /-- `handlePeerSnubbed(pe)` -/
 def handlePeerSnubbed (m : M) (k : Nat) : M :=
   match m.1.findDl k, m.1.findPeer k with
@@ -643,6 +704,11 @@ def handlePeerSnubbed (m : M) (k : Nat) : M :=
       let m := onSt m (·.updPeer k fun p => { p with snubbed := true })
       let m := onSt m fun s => { s with dls := s.dls.map fun x => if x.k = k then { x with snub := true } else x }
       onSt m (·.startDls)
+  | none, some _ =>
+    if m.1.idls.any (·.k = k) then
+      let m := onSt m (·.updPeer k fun p => { p with snubbed := true })
+      onSt m fun s => { s with idls := s.idls.map (fun x => if x.k = k then { x with snub := true } else x), mayStartI := !s.info }
+    else m
   | _, _ => m
 
 /-- Admission of an incoming connection + handshake + `startPeer` (torrent_connection.go,
@@ -723,6 +789,25 @@ def reconcile (s : St) (impl : List ImplDl) : St × List String :=
       else (dls ++ [{ k := x.k, piece := x.piece, af := x.af : Dl }], errs ++ [s!"inadmissible start {x.k}:{x.piece}"])) ([], [])
   ({ s with dls := dls, peers := s.peers.map fun p => if dls.any (fun d => d.k = p.k ∧ !(kept.any (·.k = p.k))) then { p with snubbed := false } else p },
    errs1 ++ errs2)
+
+/-- Follow the implementation's set of metadata downloads if admissible (`nextInfoDownload` iterates a map). -/
+def reconcileIdl (s : St) (impl : List Nat) : St × List String :=
+  let vanished := s.idls.filter fun d => !(impl.contains d.k)
+  let errs1 := vanished.map fun d => s!"metadata download of peer {d.k} vanished"
+  let (idls, errs2) := impl.foldl (fun (acc : List IDl × List String) k =>
+    let (idls, errs) := acc
+    match s.idls.find? (·.k = k) with
+    | some d => (idls ++ [d], errs)
+    | none =>
+      match s.findPeer k with
+      | none => (idls, errs ++ [s!"metadata download for unknown peer {k}"])
+      | some p =>
+        let nb := (p.extSize + 16383) / 16384
+        let d : IDl := { k := k, size := p.extSize, nb := nb, pending := nb, blocks := List.replicate nb none }
+        let ok := s.mayStartI && !s.info && p.extHS && p.extMeta && p.extSize ≠ 0 && p.extSize ≤ s.maxMeta &&
+                  (idls.filter (fun x => !x.snub)).length < s.parMeta
+        (idls ++ [d], if ok then errs else errs ++ [s!"inadmissible metadata download from peer {k} size {p.extSize}"])) ([], [])
+  ({ s with idls := idls }, errs1 ++ errs2)
 
 /-- C10 safety form: an idle, unchoking peer holding a needed piece nobody is downloading. -/
 def idleEligible (s : St) : List (Nat × Nat) :=
